@@ -88,10 +88,11 @@ Split(its, i, s, pos) ==
               IN  TryEnd(Len(s))
 
 (* Match(ts, s): No, or Yes(<<[f, ty, v], ...>>).  For a multi-field segment the split is chosen
-   first, the converters then accept or veto THAT split (no further backtracking). *)
-Match(ts, s) ==
-    CASE Kind(ts) = "lit" -> IF s = LitText(ts) THEN Yes(<<>>) ELSE No
-      [] Kind(ts) = "var" ->
+   first, the converters then accept or veto THAT split (no further backtracking).
+   MatchK takes the kind of ts as an argument so that callers which tabulate Kind need not recompute it. *)
+MatchK(k, ts, s) ==
+    CASE k = "lit" -> IF s = LitText(ts) THEN Yes(<<>>) ELSE No
+      [] k = "var" ->
             LET it == ts.items[1]  val == Convert(it.c, s)
             IN  IF val = None THEN No ELSE Yes(<<Cap(it.f, val)>>)
       [] OTHER ->
@@ -100,6 +101,7 @@ Match(ts, s) ==
             ELSE LET vals == [j \in DOMAIN r.caps |-> Convert(r.caps[j].c, r.caps[j].s)]
                  IN  IF \E j \in DOMAIN vals : vals[j] = None THEN No
                      ELSE Yes([j \in DOMAIN vals |-> Cap(r.caps[j].f, vals[j])])
+Match(ts, s) == MatchK(Kind(ts), ts, s)
 
 (* the value of a trailing path field: the remaining segments joined by "/" *)
 RECURSIVE JoinSlash(_)
